@@ -50,7 +50,8 @@ Lemma tie_dispatch : Gen_vinegar.dispatch_exception_unboxes = true.
 Proof. reflexivity. Qed.
 
 (* the model parameters / default switches of the current tree *)
-Definition Pgen : vparams := {| fast_noargs_only := Gen_vinegar.fast_path_noargs_only |}.
+Definition Pgen : vparams :=
+  {| fast_noargs_only := Gen_vinegar.fast_path_noargs_only; skip_callables := Gen_vinegar.dump_skips_callables |}.
 Definition flag (k : string) : bool :=
   match find (fun p => String.eqb (fst p) k) Gen_vinegar.default_flags with Some p => snd p | None => false end.
 Definition default_rflags : rflags :=
@@ -64,5 +65,19 @@ Proof. split; reflexivity. Qed.
 Definition local_major_gen : text := txt Gen_vinegar.version_major.
 (* how the current tree reads a class out of an already imported module (see Vinegar.lookup_mode) *)
 Definition Mgen : lookup_mode := Gen_vinegar.load_lookup_mode.
+Definition mode_safe_gen : bool := match Mgen with LkGetattr => false | _ => true end.
 (* does a failure while rebuilding a response reach the request it answers (_dispatch_response) or escape _dispatch? *)
 Definition Dgen : bool := Gen_vinegar.dispatch_delivers_rebuild_failure.
+
+(* the sender's fallback: _send_exc reports the failure of dump/encode of the exception's own payload instead (exact form) *)
+Lemma tie_send_exc : Gen_vinegar.send_exc_reports_dump_failure = true.
+Proof. reflexivity. Qed.
+(* Derived.__str__ appends REMOTE_LINE.format(n) + _remote_tb: the constants *)
+Definition nl : string := String (Ascii.Ascii false true false true false false false false) EmptyString.
+Lemma tie_remote_line :
+  Gen_vinegar.remote_line_start = (nl ++ nl ++ "========= Remote Traceback ")%string /\
+  Gen_vinegar.remote_line_end = (" =========" ++ nl)%string /\ Gen_vinegar.remote_line_format = "{0}({{}}){1}".
+Proof. repeat split. Qed.
+(* the three repairs of this property that the current tree carries: asserted, so that reverting one of them breaks the tie *)
+Lemma tie_repairs : Dgen = true /\ mode_safe_gen = true /\ fast_noargs_only Pgen = true.
+Proof. repeat split. Qed.
